@@ -73,8 +73,11 @@ type world struct {
 	pdu      map[int]gmsl.PDU // the event with that ID as a server holding it would have it (well signed, parsed)
 	wire     map[int][]byte   // the bytes in a response (bad signature / malformed applied); nil if missing
 	sibling  map[int]gmsl.PDU // dup fault: another event with the same (type, state_key)
+	forged   map[int][]byte   // sigcopy fault: the second copy of the input, with a destroyed signature
 	goodCopy map[int]string   // bad signature in one list only: the list ("auth" / "state") that carries the genuine copy
 	rng      *rand.Rand
+	tag      string   // prefix of the aspect of a disagreement (a harness-level dimension that is on)
+	shape    int      // 0 undecided, 1 plain lists, 2 RespSendJoin / RespState, 3 RespState
 	variants []string // which concrete shapes were used (for the nontrivial class)
 }
 
@@ -197,7 +200,7 @@ var buildCache sync.Map
 
 func materialise(r *rec, raw []byte, seed int64) *world {
 	w := &world{r: r, ver: gmsl.RoomVersion(r.Ver), ids: map[int]string{}, byID: map[string]int{}, pdu: map[int]gmsl.PDU{},
-		wire: map[int][]byte{}, sibling: map[int]gmsl.PDU{}, goodCopy: map[int]string{}, rng: recordRand(raw, seed)}
+		wire: map[int][]byte{}, sibling: map[int]gmsl.PDU{}, goodCopy: map[int]string{}, forged: map[int][]byte{}, rng: recordRand(raw, seed)}
 	w.impl = gmsl.MustGetRoomVersion(w.ver)
 	w.room, w.other = "!room:hs1", "!other:hs1"
 	for i := range r.Events {
@@ -246,6 +249,9 @@ func materialise(r *rec, raw []byte, seed int64) *world {
 			}
 		case "malformed":
 			w.wire[e.ID] = w.malformed(p)
+		case "sigcopy":
+			w.wire[e.ID] = p.JSON()
+			w.forged[e.ID] = w.badSignature(e, p)
 		case "dup":
 			w.wire[e.ID] = p.JSON()
 			if r.Kind == "load" {
@@ -359,6 +365,7 @@ func (w *world) response() *stateResponse {
 			if w.goodCopy[i] == list {
 				js = w.pdu[i].JSON()
 			}
+			js = w.respell(js, w.wire[i] != nil && w.r.ev(i).F != "malformed")
 			if js != nil {
 				*dst = append(*dst, append(spec.RawJSON{}, js...))
 			}
@@ -450,3 +457,26 @@ func (w *world) describe() string {
 }
 
 var _ = json.Marshal
+
+// respell returns the bytes of an event as another server might send them: with an "unsigned" object (never
+// signed, never hashed: it must have no effect) and / or with insignificant white space.
+func (w *world) respell(js []byte, valid bool) []byte {
+	if js == nil || !valid {
+		return js
+	}
+	switch w.rng.Intn(8) {
+	case 0:
+		out, err := sjson.SetRawBytes(js, "unsigned", []byte(`{"age_ts":1577836800000,"prev_content":{"membership":"ban"},"replaces_state":"$x:hs1"}`))
+		if err == nil {
+			w.variants = append(w.variants, "wire=unsigned")
+			return out
+		}
+	case 1:
+		var buf bytes.Buffer
+		if err := json.Indent(&buf, js, "", "  "); err == nil {
+			w.variants = append(w.variants, "wire=whitespace")
+			return buf.Bytes()
+		}
+	}
+	return js
+}
